@@ -44,20 +44,21 @@ type Engine struct {
 	NoPCRestore bool
 	Concrete    *ConcreteSource // non-nil: vp inputs are concrete (conformance mode)
 
-	nextObj   int
-	objs      map[int]*Object
-	globals   map[*ssa.Global]*Object
-	fnInfos   map[*ssa.Function]*fnInfo
-	errMsgs   map[int]string
-	base      *State
-	stats     Stats
-	feasCache map[int]bool
-	intr      map[string]intrinsic
-	funcsSeen map[string]bool // functions of the repo executed (evidence)
-	modelsHit map[string]bool // stdlib models used (evidence)
-	stdGlobal map[string]bool // stdlib globals read without init (evidence/assumption)
-	errStrT   types.Type
-	job       *jobCtx
+	nextObj    int
+	objs       map[int]*Object
+	globals    map[*ssa.Global]*Object
+	fnInfos    map[*ssa.Function]*fnInfo
+	constCache map[*ssa.Const]Value
+	errMsgs    map[int]string
+	base       *State
+	stats      Stats
+	feasCache  map[int]bool
+	intr       map[string]intrinsic
+	funcsSeen  map[string]bool // functions of the repo executed (evidence)
+	modelsHit  map[string]bool // stdlib models used (evidence)
+	stdGlobal  map[string]bool // stdlib globals read without init (evidence/assumption)
+	errStrT    types.Type
+	job        *jobCtx
 	// restrictSeq counts events that restrict the set of inputs on a path (assumptions, structural
 	// choices, key-match forks); regions during which it did not move keep their entry condition.
 	restrictSeq int
@@ -92,7 +93,7 @@ func Load(dir string, overlay map[string][]byte, patterns ...string) (*Engine, e
 		prog: prog, pkgs: pkgs, ssaPkgs: map[string]*ssa.Package{},
 		MaxSteps: 400_000_000, Unwind: 4_000_000,
 		objs: map[int]*Object{}, globals: map[*ssa.Global]*Object{}, fnInfos: map[*ssa.Function]*fnInfo{},
-		errMsgs: map[int]string{}, feasCache: map[int]bool{},
+		errMsgs: map[int]string{}, feasCache: map[int]bool{}, constCache: map[*ssa.Const]Value{},
 		funcsSeen: map[string]bool{}, modelsHit: map[string]bool{}, stdGlobal: map[string]bool{},
 	}
 	for _, p := range prog.AllPackages() {
